@@ -22,7 +22,8 @@ ID = "C07"
 LEVEL = "fault_enumeration"
 DESIGN_REF = "DESIGN.md §3.1, §4 C07"
 RULE = (
-    "cases = (config, initial tree, bursts incl. ext ops / makedirs / api_resched / api_sched2, optional race plan "
+    "cases = (config, initial tree, bursts incl. ext ops / makedirs / api_resched / api_sched2 - one case in three without "
+    "the pacing condition of C01: directory names re-used and contents touched back to back -, optional race plan "
     "(lookup call index 0-11, action delete|rename|recreate), optional final root deletion).  Oracle: no library thread "
     "ends with an unhandled exception; afterwards a probe in the root and in every start directory that kept path and "
     "inode is reported; root deletion gives exactly one DirDeletedEvent(root) (none if the watch's event filter does not "
@@ -205,7 +206,7 @@ def run_case(case):
         probed = 0
         rec = bool(cfg.get("recursive", True))
         targets = dict(start_inodes)
-        if not case.get("race"):
+        if not case.get("race") and not case.get("unpaced"):
             for p, k_ in fsops.disk_tree(s.root).items():
                 if k_ == "d" and p not in targets:
                     targets[p] = os.lstat(os.path.join(s.root, p)).st_ino
@@ -278,6 +279,8 @@ def classes_of(case, info):
         cl.append("name-reused")
     nt = bool(set(c.split(":")[0] for c in cl) & {"ext-op", "api-reschedule", "root-deletion", "race-hit", "name-reused"})
     cl.append("recursive" if case["cfg"].get("recursive", True) else "non-recursive")
+    if case.get("unpaced"):
+        cl.append("unpaced-history")
     if case["cfg"].get("event_filter"):
         cl.append("filtered-watch")
         if any(op[0] == "rmroot" for op in ops):
@@ -305,12 +308,20 @@ def cases(draw, tier):
         "move_in_replace": True,
         "weights": {"ext_create": 2, "ext_mkdir": 2, "ext_write": 1, "ext_unlink": 1, "ext_rmtree": 3, "ext_rename": 1, "move_out": 6, "mkdir": 6, "makedirs": 5, "rmtree": 4, "rmdir": 3},
     }
+    unpaced = draw(st.integers(0, 2)) == 0
+    if unpaced:
+        # the statement of C07 has no pacing condition: names of directories are re-used and their contents touched
+        # back to back; what is asserted then is limited to what must survive any history (see run_case)
+        opts["unpaced"] = True
+        opts["sleeps"] = draw(st.booleans())
     h = draw(fsops.histories(opts))
     bursts = h["bursts"]
     for b in bursts:
         if draw(st.integers(0, 9)) == 0:
             b.insert(draw(st.integers(0, len(b))), [draw(st.sampled_from(["api_resched", "api_sched2"]))])
     case = {"cfg": cfg, "init": h["init"], "bursts": bursts}
+    if unpaced:
+        case["unpaced"] = True
     if draw(st.integers(0, 2)) == 0:
         case["race"] = {"at": draw(st.integers(0, 11)), "action": draw(st.sampled_from(["delete", "rename", "recreate"]))}
     if draw(st.integers(0, 4)) == 0:
